@@ -48,17 +48,18 @@ def to_py(x, depth=0):
         if x.dtype.kind in "SU":
             return [str(e) if not isinstance(e, bytes) else e.decode("latin1") for e in x.tolist()] if x.ndim == 1 else x.tolist()
         return x.tolist()
-    if name in ("EncodedArray", "EncodedRaggedArray") or (mod.startswith("bionumpy") and hasattr(x, "encoding") and hasattr(x, "tolist")):
+    if name == "EncodedRaggedArray":
         try:
-            if getattr(x, "ndim", None) == 0 or (hasattr(x, "shape") and x.shape == ()):
+            return [r if isinstance(r, str) else "".join(r) for r in x.tolist()]
+        except Exception as e:
+            return "<unprintable %s: %r>" % (name, e)
+    if name == "EncodedArray":
+        try:
+            if x.ndim <= 1:
                 return x.to_string()
-            if getattr(x, "ndim", 1) == 1 and name == "EncodedArray":
-                return x.to_string()
-            if name == "EncodedArray" and x.ndim >= 2:
-                from bnpmon.util import text_rows
-                return text_rows(x)
-            return to_py(x.tolist(), depth + 1)
-        except Exception as e:  # pragma: no cover
+            from bnpmon.util import text_rows
+            return text_rows(x)
+        except Exception as e:
             return "<unprintable %s: %r>" % (name, e)
     if name == "StringArray":
         return [str(e) for e in x.tolist()]
